@@ -389,6 +389,16 @@ def run(tier, seed, replay=None):
     r.cov["trusted_base"] = ["coqc 8.16.1 kernel + vm_compute", "python generator/renderer props/c09.py",
                              "harness c09.rs (abstraction: runtime/provenance/engine -> canonical dump and fingerprint)"]
     r.proof_phase(THEOREMS)
+    if tier == "thorough" and not replay:
+        import time, subprocess
+        t1 = time.time()
+        try:
+            rc, out = vf.sh(["coqchk", "-o", "-silent", "-Q", vf.COQ, "Echo", "Echo.Props.C09"], timeout=1500)
+            r.phase("P1b_coqchk", ok=(rc == 0), seconds=round(time.time() - t1, 1), tail=out[-300:])
+            if rc:
+                r.is_broken("coqchk", out[-1500:])
+        except subprocess.TimeoutExpired as e:
+            r.is_broken("coqchk", repr(e))
     if replay:
         d = json.load(open(replay))
         cases = [d["replay"]["case"]] if "case" in d.get("replay", {}) else []
